@@ -41,3 +41,15 @@ namespace Ike.GenExt
 /-- `new(message.Proposal)` as package `security` sees it -/
 def Proposal_zero : Ike.Proposal := ⟨0, 0, [], [], [], [], [], []⟩
 end Ike.GenExt
+
+namespace Ike.GenExt
+/-- `eap.EapExpanded` as package `message` builds it field by field (`BuildEapExpanded`) -/
+structure EapExpandedS where
+  VendorID : UInt32 := 0
+  VendorType : UInt32 := 0
+  VendorData : Bytes := []
+deriving Repr, Inhabited, DecidableEq
+
+/-- an `*eap.EapExpanded` stored in the interface-typed field `EAP.EapTypeData` -/
+def expandedData (x : EapExpandedS) : Ike.EapData := .expanded x.VendorID x.VendorType x.VendorData
+end Ike.GenExt
